@@ -280,6 +280,8 @@ def rnum(rng: random.Random, dec: int, lo=-3.0, hi=3.0, special=0.06) -> dict:
 
 def rheight(rng, dec) -> dict:
     r = rng.random()
+    if r < 0.03:
+        return dict(NAN)        # a height that is not a number is not "close to one": it is written, and read back
     if r < 0.5 or dec == 0:
         return dict(ONE)
     scale = 10 ** dec
